@@ -757,6 +757,8 @@ Proof.
   - apply okres_ok. rewrite E2. destruct (g_conn R) eqn:EC; auto.
     eapply abs_same_lists; eauto; try (intro k; destruct k; reflexivity).
     unfold env, renv. simpl. congruence.
+  - apply okres_ok. eapply abs_same_lists; eauto; try (intro k; destruct k; reflexivity).
+    unfold env, renv. simpl. congruence.
 Qed.
 
 Lemma wf_r_add : forall at_head k cb ud user flt R, WF R -> WF (r_add at_head k cb ud user flt R).
@@ -770,6 +772,7 @@ Proof.
   intros a R W. destruct a; cbn [r_action]; try (apply wf_r_add; auto).
   - apply wf_filter. auto.
   - destruct (g_conn R); auto. eapply wf_same_lists; eauto; try (intro k; destruct k; reflexivity).
+  - eapply wf_same_lists; eauto; try (intro k; destruct k; reflexivity).
 Qed.
 
 Lemma wf_actions : forall acts R, WF R -> WF (r_actions acts R).
@@ -908,6 +911,7 @@ Proof.
   intros a R. destruct a; cbn [r_action]; try apply g_next_r_add.
   - unfold r_del. rewrite g_next_rset. lia.
   - destruct (g_conn R); simpl; lia.
+  - simpl. lia.
 Qed.
 
 Lemma J_action : forall k r rest a R,
@@ -920,6 +924,7 @@ Proof.
   - apply J_add; auto. congruence.
   - apply J_del; auto. intros _ E. apply Hd. simpl. congruence.
   - destruct (g_conn R); auto.
+  - exact Hj.
 Qed.
 
 Lemma J_actions : forall k r rest acts R,
@@ -1243,6 +1248,7 @@ Proof.
   intros k rest a R Hk W B Q. destruct a; cbn [r_action]; try (apply Q_add; auto).
   - apply Q_del; auto.
   - destruct (g_conn R); auto.
+  - exact Q.
 Qed.
 
 Lemma Q_actions : forall k rest acts R, k <> KGlobal -> WF R -> below (g_next R) rest ->
@@ -1495,31 +1501,59 @@ Proof. unfold stable. intros A B C (a1&a2&a3&a4) (b1&b2&b3&b4). repeat split; co
 Lemma stable_rset : forall k l R, stable R (rset k l R).
 Proof. intros. destruct (g_fields_rset k l R) as (a&b&c&d&e). repeat split; auto. Qed.
 
-Lemma stable_action : forall a R, stable R (r_action a R).
+Definition noclk (acts : list action) : Prop := forall a, In a acts -> forall d, a <> AClk d.
+
+Lemma instant_noclk : forall sc lg cb ud acts ret, instant sc -> sc lg cb ud = (acts, ret) -> noclk acts.
+Proof. intros sc lg cb ud acts ret I E a Ha. apply (I lg cb ud). rewrite E. exact Ha. Qed.
+
+(* actions never touch the log, the negotiation flag or the connection state; they move the clock only
+   through AClk (a callback that takes time) *)
+Definition stable3 (R R' : reg) : Prop :=
+  g_log R' = g_log R /\ g_neg R' = g_neg R /\ g_conn R' = g_conn R.
+
+Lemma stable_action : forall a R, (forall d, a <> AClk d) -> stable R (r_action a R).
 Proof.
-  intros a R. destruct a; cbn [r_action]; try (unfold r_add; destruct (has_key cb ud _); [apply stable_refl|];
+  intros a R NC. destruct a; cbn [r_action]; try (unfold r_add; destruct (has_key cb ud _); [apply stable_refl|];
     eapply stable_trans; [|apply stable_rset]; repeat split).
   - unfold r_del. apply stable_rset.
   - destruct (g_conn R); repeat split.
+  - exfalso. apply (NC d). reflexivity.
 Qed.
 
-Lemma stable_actions : forall acts R, stable R (r_actions acts R).
+Lemma stable_actions : forall acts R, noclk acts -> stable R (r_actions acts R).
 Proof.
-  induction acts as [|a acts IH]; intro R; cbn [r_actions]; [apply stable_refl|].
+  induction acts as [|a acts IH]; intros R NC; cbn [r_actions]; [apply stable_refl|].
   eapply stable_trans; [apply stable_action | apply IH].
+  - apply NC. left. reflexivity.
+  - intros b Hb. apply NC. right. exact Hb.
+Qed.
+
+Lemma stable3_action : forall a R, stable3 R (r_action a R).
+Proof.
+  intros a R.
+  assert (X : (forall d, a <> AClk d) -> stable3 R (r_action a R)).
+  { intro NC. destruct (stable_action a R NC) as (x&y&_&z). repeat split; auto. }
+  destruct a; try (apply X; intros; discriminate). repeat split.
+Qed.
+
+Lemma stable3_actions : forall acts R, stable3 R (r_actions acts R).
+Proof.
+  induction acts as [|a acts IH]; intro R; cbn [r_actions]; [repeat split|].
+  destruct (stable3_action a R) as (x&y&z). destruct (IH (r_action a R)) as (x'&y'&z').
+  repeat split; congruence.
 Qed.
 
 (* every event of the log after a pass was there before, or is the call of a registration of the snapshot
    that, at its turn, was still registered, passed the gate and matched *)
-Lemma spec_loop_log_inv : forall sc k sz (P : event -> Prop) neg0 clock0 snap0,
+Lemma spec_loop_log_inv : forall sc k sz (P : event -> Prop) neg0 snap0,
   (forall x Rm r ret, In x snap0 -> find_rec x (rget k Rm) = Some r -> s_gate k Rm r = true ->
-      s_match k r sz clock0 = true -> g_neg Rm = neg0 -> g_clock Rm = clock0 ->
-      P (EvCall x (r_cb r) (r_ud r) (r_user r) k clock0 ret)) ->
-  forall snap R, incl snap snap0 -> g_neg R = neg0 -> g_clock R = clock0 ->
+      s_match k r sz (g_clock Rm) = true -> g_neg Rm = neg0 ->
+      P (EvCall x (r_cb r) (r_ud r) (r_user r) k (g_clock Rm) ret)) ->
+  forall snap R, incl snap snap0 -> g_neg R = neg0 ->
   (forall e, In e (g_log R) -> P e) ->
   forall e, In e (g_log (spec_loop sc k sz snap R)) -> P e.
 Proof.
-  intros sc k sz P neg0 clock0 snap0 HP. induction snap as [|x snap IH]; intros R HI HN HC HL; cbn [spec_loop]; auto.
+  intros sc k sz P neg0 snap0 HP. induction snap as [|x snap IH]; intros R HI HN HL; cbn [spec_loop]; auto.
   assert (HI' : incl snap snap0) by (intros y Hy; apply HI; right; auto).
   destruct (find_rec x (rget k R)) as [r|] eqn:F; [|apply IH; auto].
   destruct (s_gate k R r && s_match k r sz (g_clock R)) eqn:GM; [|apply IH; auto].
@@ -1529,44 +1563,44 @@ Proof.
   assert (S1 : stable R R1) by (unfold R1, r_update; apply stable_rset).
   destruct S1 as (s1&s2&s3&s4).
   set (R2 := rset_log R1 (EvCall x (r_cb r) (r_ud r) (r_user r) k (g_clock R1) ret :: g_log R1)).
-  pose proof (stable_actions acts R2) as (t1&t2&t3&t4).
+  pose proof (stable3_actions acts R2) as (t1&t2&t4).
   assert (L3 : forall e, In e (g_log (r_actions acts R2)) -> P e).
   { intros e He. rewrite t1 in He. unfold R2 in He. simpl in He. destruct He as [<-|He].
-    - rewrite s3, HC. apply (HP x R r ret); auto.
-      + apply HI. left. reflexivity.
-      + rewrite <- HC. exact M.
+    - rewrite s3. apply (HP x R r ret); auto. apply HI. left. reflexivity.
     - rewrite s1 in He. auto. }
   destruct ret.
-  - apply IH; auto.
-    + rewrite t2. unfold R2. simpl. congruence.
-    + rewrite t3. unfold R2. simpl. congruence.
+  - apply IH; auto. rewrite t2. unfold R2. simpl. congruence.
   - pose proof (stable_rset k (filter (fun r0 => negb (Nat.eqb (hid r0) x)) (rget k (r_actions acts R2))) (r_actions acts R2)) as (u1&u2&u3&u4).
     apply IH; unfold r_remove; auto.
     + rewrite u2, t2. unfold R2. simpl. congruence.
-    + rewrite u3, t3. unfold R2. simpl. congruence.
     + intros e He. rewrite u1 in He. auto.
 Qed.
 
+(* the negotiation flag and the connection state do not change during a pass; the clock does not either when
+   the callbacks take no time *)
 Lemma stable_spec_loop : forall sc k sz snap R,
-  g_neg (spec_loop sc k sz snap R) = g_neg R /\ g_clock (spec_loop sc k sz snap R) = g_clock R /\
-  g_conn (spec_loop sc k sz snap R) = g_conn R.
+  g_neg (spec_loop sc k sz snap R) = g_neg R /\ g_conn (spec_loop sc k sz snap R) = g_conn R /\
+  (instant sc -> g_clock (spec_loop sc k sz snap R) = g_clock R).
 Proof.
   induction snap as [|x snap IH]; intro R; cbn [spec_loop]; auto.
   destruct (find_rec x (rget k R)) as [r|]; auto.
   destruct (s_gate k R r && s_match k r sz (g_clock R)); auto.
-  destruct (sc _ (r_cb r) (r_ud r)) as [acts ret].
-  match goal with |- context [spec_loop sc k sz snap ?X] => destruct (IH X) as (i1&i2&i3); rewrite i1, i2, i3;
-    assert (SX : g_neg X = g_neg R /\ g_clock X = g_clock R /\ g_conn X = g_conn R); [|exact SX] end.
-  set (R1 := r_update k x (rec_stamp k (g_clock R)) R).
-  pose proof (stable_rset k (map (fun r0 => if Nat.eqb (hid r0) x then rec_stamp k (g_clock R) r0 else r0) (rget k R)) R) as (s1&s2&s3&s4).
-  fold (r_update k x (rec_stamp k (g_clock R)) R) in s1, s2, s3, s4. fold R1 in s1, s2, s3, s4.
-  set (R2 := rset_log R1 (EvCall x (r_cb r) (r_ud r) (r_user r) k (g_clock R1) ret :: g_log R1)).
-  pose proof (stable_actions acts R2) as (t1&t2&t3&t4).
-  destruct ret.
-  - rewrite t2, t3, t4. unfold R2. simpl. auto.
-  - unfold r_remove.
-    pose proof (stable_rset k (filter (fun r0 => negb (Nat.eqb (hid r0) x)) (rget k (r_actions acts R2))) (r_actions acts R2)) as (u1&u2&u3&u4).
-    rewrite u2, u3, u4, t2, t3, t4. unfold R2. simpl. auto.
+  destruct (sc _ (r_cb r) (r_ud r)) as [acts ret] eqn:SC.
+  match goal with |- context [spec_loop sc k sz snap ?X] => destruct (IH X) as (i1&i3&i2); rewrite i1, i3;
+    assert (SX : g_neg X = g_neg R /\ g_conn X = g_conn R /\ (instant sc -> g_clock X = g_clock R)) end.
+  { set (R1 := r_update k x (rec_stamp k (g_clock R)) R) in *.
+    pose proof (stable_rset k (map (fun r0 => if Nat.eqb (hid r0) x then rec_stamp k (g_clock R) r0 else r0) (rget k R)) R) as (s1&s2&s3&s4).
+    fold (r_update k x (rec_stamp k (g_clock R)) R) in s1, s2, s3, s4. fold R1 in s1, s2, s3, s4.
+    set (R2 := rset_log R1 (EvCall x (r_cb r) (r_ud r) (r_user r) k (g_clock R1) ret :: g_log R1)) in *.
+    pose proof (stable3_actions acts R2) as (t1&t2&t4).
+    assert (T3 : instant sc -> g_clock (r_actions acts R2) = g_clock R).
+    { intro I. destruct (stable_actions acts R2 (instant_noclk _ _ _ _ _ _ I SC)) as (_&_&t3&_). rewrite t3. unfold R2. simpl. auto. }
+    destruct ret.
+    - rewrite t2, t4. unfold R2. simpl. auto.
+    - unfold r_remove.
+      pose proof (stable_rset k (filter (fun r0 => negb (Nat.eqb (hid r0) x)) (rget k (r_actions acts R2))) (r_actions acts R2)) as (u1&u2&u3&u4).
+      rewrite u2, u3, u4, t2, t4. unfold R2. simpl. auto. }
+  destruct SX as (x1&x2&x3). repeat split; auto. intro I. rewrite (i2 I). auto.
 Qed.
 
 (* how one action changes one list *)
@@ -1594,6 +1628,7 @@ Proof.
     + right. right. eexists. rewrite rget_rset_same. reflexivity.
     + left. apply rget_rset_other. auto.
   - left. destruct (g_conn R); auto; destruct k; reflexivity.
+  - left. destruct k; reflexivity.
 Qed.
 
 Lemma present_cons : forall r l x, present (r :: l) x = Nat.eqb (hid r) x || present l x.
@@ -1663,7 +1698,7 @@ Proof.
   set (R1 := r_update k y (rec_stamp k (g_clock R)) R).
   set (R2 := rset_log R1 (EvCall y (r_cb r) (r_ud r) (r_user r) k (g_clock R1) ret :: g_log R1)).
   assert (H2 : In e (g_log (r_actions acts R2))).
-  { destruct (stable_actions acts R2) as (t1&_). rewrite t1. unfold R2. simpl. right.
+  { destruct (stable3_actions acts R2) as (t1&_). rewrite t1. unfold R2. simpl. right.
     unfold R1, r_update. destruct (g_fields_rset k (map (fun r0 => if Nat.eqb (hid r0) y then rec_stamp k (g_clock R) r0 else r0) (rget k R)) R) as (a&_).
     rewrite a. exact He. }
   destruct ret; apply IH; auto.
@@ -1691,18 +1726,18 @@ Qed.
 Lemma calls_of_app : forall l1 l2, calls_of (l1 ++ l2) = calls_of l1 ++ calls_of l2.
 Proof. intros. unfold calls_of. apply flat_map_app. Qed.
 
-Definition is_call_at (k : kind) (t : Z) (e : event) : Prop :=
-  exists x cb ud u ret, e = EvCall x cb ud u k t ret.
+Definition is_call_kind (k : kind) (e : event) : Prop :=
+  exists x cb ud u t ret, e = EvCall x cb ud u k t ret.
 
 (* the pass appends to the log the calls of a subsequence of the snapshot, in snapshot order *)
 Lemma spec_loop_trace : forall sc k sz snap R,
   exists evs, g_log (spec_loop sc k sz snap R) = evs ++ g_log R /\
-              subseq (calls_of (rev evs)) snap /\ Forall (is_call_at k (g_clock R)) evs.
+              subseq (calls_of (rev evs)) snap /\ Forall (is_call_kind k) evs.
 Proof.
   intros sc k sz. induction snap as [|y snap IH]; intro R; cbn [spec_loop].
   { exists []. repeat split; constructor. }
   assert (SKIP : exists evs, g_log (spec_loop sc k sz snap R) = evs ++ g_log R /\
-              subseq (calls_of (rev evs)) (y :: snap) /\ Forall (is_call_at k (g_clock R)) evs).
+              subseq (calls_of (rev evs)) (y :: snap) /\ Forall (is_call_kind k) evs).
   { destruct (IH R) as [evs [E [S F]]]. exists evs. repeat split; auto. constructor. auto. }
   destruct (find_rec y (rget k R)) as [r|]; auto.
   destruct (s_gate k R r && s_match k r sz (g_clock R)); auto.
@@ -1711,22 +1746,20 @@ Proof.
   set (ev := EvCall y (r_cb r) (r_ud r) (r_user r) k (g_clock R1) ret).
   set (R2 := rset_log R1 (ev :: g_log R1)).
   assert (S1 : stable R R1) by (unfold R1, r_update; apply stable_rset). destruct S1 as (s1&s2&s3&s4).
-  pose proof (stable_actions acts R2) as (t1&t2&t3&t4).
+  pose proof (stable3_actions acts R2) as (t1&t2&t4).
   set (R4 := if ret then r_actions acts R2 else r_remove k y (r_actions acts R2)).
-  assert (L4 : g_log R4 = ev :: g_log R /\ g_clock R4 = g_clock R).
+  assert (L4 : g_log R4 = ev :: g_log R).
   { unfold R4. destruct ret.
-    - rewrite t1, t3. unfold R2. simpl. rewrite s1, s3. auto.
+    - rewrite t1. unfold R2. simpl. rewrite s1. auto.
     - unfold r_remove.
-      destruct (g_fields_rset k (filter (fun r0 => negb (Nat.eqb (hid r0) y)) (rget k (r_actions acts R2))) (r_actions acts R2)) as (a&b&_).
-      rewrite a, b, t1, t3. unfold R2. simpl. rewrite s1, s3. auto. }
-  destruct L4 as [L4 C4].
+      destruct (g_fields_rset k (filter (fun r0 => negb (Nat.eqb (hid r0) y)) (rget k (r_actions acts R2))) (r_actions acts R2)) as (a&_).
+      rewrite a, t1. unfold R2. simpl. rewrite s1. auto. }
   destruct (IH R4) as [evs [E [S F]]]. fold R4.
   exists (evs ++ [ev]). repeat split.
   - rewrite E, L4, <- app_assoc. reflexivity.
   - rewrite rev_app_distr. simpl. apply ss_take. exact S.
-  - apply Forall_app. split.
-    + rewrite C4 in F. exact F.
-    + constructor; [|constructor]. unfold ev. rewrite s3. red. eauto 10.
+  - apply Forall_app. split; auto.
+    constructor; [|constructor]. unfold ev. red. eauto 10.
 Qed.
 
 (* ------------------------------------------------------------------ a due handler is served *)
@@ -1785,12 +1818,12 @@ Proof. intros. unfold s_gate. rewrite H. reflexivity. Qed.
 (* a registration of the snapshot that is registered, passes the gate and matches when the pass starts
    is called in this pass, unless an earlier handler of the pass deleted it *)
 Lemma spec_loop_complete : forall sc k sz snap R x r,
-  WF R -> NoDup snap -> below (g_next R) snap -> In x snap ->
+  instant sc -> WF R -> NoDup snap -> below (g_next R) snap -> In x snap ->
   find_rec x (rget k R) = Some r -> s_gate k R r = true -> s_match k r sz (g_clock R) = true ->
   (exists ret, In (EvCall x (r_cb r) (r_ud r) (r_user r) k (g_clock R) ret) (g_log (spec_loop sc k sz snap R))) \/
   present (rget k (spec_loop sc k sz snap R)) x = false.
 Proof.
-  intros sc k sz. induction snap as [|y snap IH]; intros R x r W ND B Hx F G M; [contradiction|].
+  intros sc k sz. induction snap as [|y snap IH]; intros R x r I W ND B Hx F G M; [contradiction|].
   assert (ND' : NoDup snap) by (inversion ND; auto).
   assert (B' : below (g_next R) snap) by (intros h Hh; apply B; right; auto).
   destruct (Nat.eq_dec y x) as [->|N].
@@ -1801,7 +1834,7 @@ Proof.
     set (R1 := r_update k x (rec_stamp k (g_clock R)) R).
     assert (S1 : stable R R1) by (unfold R1, r_update; apply stable_rset). destruct S1 as (s1&s2&s3&s4).
     set (R2 := rset_log R1 (EvCall x (r_cb r) (r_ud r) (r_user r) k (g_clock R1) ret :: g_log R1)).
-    pose proof (stable_actions acts R2) as (t1&_).
+    pose proof (stable3_actions acts R2) as (t1&_).
     assert (H3 : In (EvCall x (r_cb r) (r_ud r) (r_user r) k (g_clock R) ret) (g_log (r_actions acts R2))).
     { rewrite t1. unfold R2. simpl. left. rewrite s3. reflexivity. }
     destruct ret; auto.
@@ -1812,7 +1845,7 @@ Proof.
     cbn [spec_loop].
     destruct (find_rec y (rget k R)) as [ry|] eqn:Fy; [|apply IH; auto].
     destruct (s_gate k R ry && s_match k ry sz (g_clock R)); [|apply IH; auto].
-    destruct (sc _ (r_cb ry) (r_ud ry)) as [acts ret].
+    destruct (sc _ (r_cb ry) (r_ud ry)) as [acts ret] eqn:SC.
     set (R1 := r_update k y (rec_stamp k (g_clock R)) R).
     set (R2 := rset_log R1 (EvCall y (r_cb ry) (r_ud ry) (r_user ry) k (g_clock R1) ret :: g_log R1)).
     assert (S1 : stable R R1) by (unfold R1, r_update; apply stable_rset). destruct S1 as (s1&s2&s3&s4).
@@ -1823,7 +1856,7 @@ Proof.
     { intros r' Hr'. replace (rget k R2) with (rget k R1) in Hr' by (destruct k; reflexivity).
       unfold R1, r_update in Hr'. rewrite rget_rset_same in Hr'. rewrite find_map_other in Hr'; auto.
       intro. apply hid_rec_stamp. }
-    pose proof (stable_actions acts R2) as (t1&t2&t3&t4).
+    pose proof (stable_actions acts R2 (instant_noclk _ _ _ _ _ _ I SC)) as (t1&t2&t3&t4).
     set (R3 := r_actions acts R2) in *.
     assert (W3 : WF R3) by (apply wf_actions; auto).
     assert (G3 : (g_next R <= g_next R3)%nat) by (pose proof (g_next_actions acts R2); fold R3 in H; lia).
@@ -1940,7 +1973,8 @@ Theorem fire_order_lemma : forall sc sz R, WF R ->
     subseq (calls_of (rev evs_id)) (id_snapshot sz R) /\
     subseq (calls_of (rev evs_st)) (hids (rget KStanza R)) /\
     NoDup (calls_of (rev evs_id)) /\ NoDup (calls_of (rev evs_st)) /\
-    (forall e, In e (evs_st ++ evs_id) -> exists x cb ud u k ret, e = EvCall x cb ud u k (g_clock R) ret).
+    (forall e, In e evs_st -> is_call_kind KStanza e) /\
+    (forall e, In e evs_id -> exists id, st_id sz = Some id /\ is_call_kind (KId id) e).
 Proof.
   intros sc sz R W. unfold spec_fire_stanza, id_snapshot.
   set (R1 := r_enable KStanza R).
@@ -1955,35 +1989,32 @@ Proof.
     set (R2 := spec_loop sc (KId id) sz (hids (rget (KId id) R)) R1') in *.
     destruct (spec_loop_trace sc KStanza sz (hids (rget KStanza R)) R2) as [e2 [L2 [S2 F2]]].
     exists e1, e2.
-    assert (C2 : g_clock R2 = g_clock R).
-    { unfold R2. destruct (stable_spec_loop sc (KId id) sz (hids (rget (KId id) R)) R1') as (_&c&_).
-      rewrite c. unfold R1', R1. rewrite !g_clock_r_enable. reflexivity. }
-    assert (C1 : g_clock R1' = g_clock R) by (unfold R1', R1; rewrite !g_clock_r_enable; reflexivity).
-    repeat split; auto.
-    + rewrite L2, L1. unfold R1', R1. rewrite !g_log_r_enable. reflexivity.
-    + eapply subseq_nodup; eauto. apply (wf_nodup _ W).
-    + eapply subseq_nodup; eauto. apply (wf_nodup _ W).
-    + intros e He. apply in_app_or in He. destruct He as [He|He].
-      * rewrite Forall_forall in F2. destruct (F2 e He) as (x&cb&ud&u&ret&->). rewrite C2. eauto 10.
-      * rewrite Forall_forall in F1. destruct (F1 e He) as (x&cb&ud&u&ret&->). rewrite C1. eauto 10.
+    split; [rewrite L2, L1; unfold R1', R1; rewrite !g_log_r_enable; reflexivity|].
+    split; [exact S1|]. split; [exact S2|].
+    split; [eapply subseq_nodup; eauto; apply (wf_nodup _ W)|].
+    split; [eapply subseq_nodup; eauto; apply (wf_nodup _ W)|].
+    split.
+    + intros e He. rewrite Forall_forall in F2. auto.
+    + intros e He. exists id. split; auto. rewrite Forall_forall in F1. auto.
   - destruct (spec_loop_trace sc KStanza sz (hids (rget KStanza R)) R1) as [e2 [L2 [S2 F2]]].
     exists [], e2. cbn [app rev calls_of flat_map].
-    unfold R1 in L2 at 2. rewrite g_log_r_enable in L2. repeat split; auto.
-    + constructor.
-    + constructor.
-    + eapply subseq_nodup; eauto. apply (wf_nodup _ W).
-    + intros e He. rewrite app_nil_r in He. rewrite Forall_forall in F2.
-      destruct (F2 e He) as (x&cb&ud&u&ret&->). unfold R1. rewrite g_clock_r_enable. eauto 10.
+    unfold R1 in L2 at 2. rewrite g_log_r_enable in L2.
+    split; [exact L2|]. split; [constructor|]. split; [exact S2|]. split; [constructor|].
+    split; [eapply subseq_nodup; eauto; apply (wf_nodup _ W)|].
+    split.
+    + intros e He. rewrite Forall_forall in F2. auto.
+    + intros e [].
 Qed.
 
 (* --- soundness of every invocation of a stanza dispatch --- *)
+(* [Rm] is the registry at the moment the handler is reached; the event carries the time of that moment *)
 Definition stanza_call_ok (sz : stanza) (R : reg) (e : event) : Prop :=
   In e (g_log R) \/
   exists x k Rm r ret,
-    e = EvCall x (r_cb r) (r_ud r) (r_user r) k (g_clock R) ret /\
+    e = EvCall x (r_cb r) (r_ud r) (r_user r) k (g_clock Rm) ret /\
     ((k = KStanza /\ In x (hids (rget KStanza R))) \/
      (exists id, st_id sz = Some id /\ k = KId id /\ In x (hids (rget (KId id) R)))) /\
-    find_rec x (rget k Rm) = Some r /\ s_gate k Rm r = true /\ s_match k r sz (g_clock R) = true /\
+    find_rec x (rget k Rm) = Some r /\ s_gate k Rm r = true /\ s_match k r sz (g_clock Rm) = true /\
     g_neg Rm = g_neg R.
 
 Theorem fire_sound_lemma : forall sc sz R e,
@@ -1993,26 +2024,24 @@ Proof.
   set (R1 := r_enable KStanza R).
   assert (HS : hids (rget KStanza R1) = hids (rget KStanza R)) by apply hids_r_enable.
   assert (N1 : g_neg R1 = g_neg R) by apply g_neg_r_enable.
-  assert (C1 : g_clock R1 = g_clock R) by apply g_clock_r_enable.
   assert (L1 : g_log R1 = g_log R) by apply g_log_r_enable.
-  assert (OUTER : forall R2, g_neg R2 = g_neg R -> g_clock R2 = g_clock R ->
+  assert (OUTER : forall R2, g_neg R2 = g_neg R ->
             (forall e, In e (g_log R2) -> stanza_call_ok sz R e) ->
             In e (g_log (spec_loop sc KStanza sz (hids (rget KStanza R1)) R2)) -> stanza_call_ok sz R e).
-  { intros R2 N2 C2 H2.
-    apply (spec_loop_log_inv sc KStanza sz (stanza_call_ok sz R) (g_neg R) (g_clock R) (hids (rget KStanza R1))); auto.
-    - intros x Rm r ret Hx F G M HN HC. right. exists x, KStanza, Rm, r, ret. repeat split; auto.
+  { intros R2 N2 H2.
+    apply (spec_loop_log_inv sc KStanza sz (stanza_call_ok sz R) (g_neg R) (hids (rget KStanza R1))); auto.
+    - intros x Rm r ret Hx F G M HN. right. exists x, KStanza, Rm, r, ret. repeat split; auto.
       left. split; auto. rewrite <- HS. exact Hx.
     - intros y Hy. exact Hy. }
   destruct (st_id sz) as [id|] eqn:EID.
   - set (R1' := r_enable (KId id) R1).
     assert (HI : hids (rget (KId id) R1') = hids (rget (KId id) R)) by (unfold R1', R1; rewrite !hids_r_enable; reflexivity).
     assert (N1' : g_neg R1' = g_neg R) by (unfold R1'; rewrite g_neg_r_enable; auto).
-    assert (C1' : g_clock R1' = g_clock R) by (unfold R1'; rewrite g_clock_r_enable; auto).
     assert (L1' : g_log R1' = g_log R) by (unfold R1'; rewrite g_log_r_enable; auto).
-    destruct (stable_spec_loop sc (KId id) sz (hids (rget (KId id) R1')) R1') as (a&b&_).
+    destruct (stable_spec_loop sc (KId id) sz (hids (rget (KId id) R1')) R1') as (a&_).
     apply OUTER; try congruence.
-    intros e0. apply (spec_loop_log_inv sc (KId id) sz (stanza_call_ok sz R) (g_neg R) (g_clock R) (hids (rget (KId id) R1'))); auto.
-    + intros x Rm r ret Hx F G M HN HC. right. exists x, (KId id), Rm, r, ret. repeat split; auto.
+    intros e0. apply (spec_loop_log_inv sc (KId id) sz (stanza_call_ok sz R) (g_neg R) (hids (rget (KId id) R1'))); auto.
+    + intros x Rm r ret Hx F G M HN. right. exists x, (KId id), Rm, r, ret. repeat split; auto.
       right. exists id. repeat split; auto. rewrite <- HI. exact Hx.
     + intros y Hy. exact Hy.
     + intros e1 H1. left. rewrite <- L1'. exact H1.
@@ -2020,12 +2049,14 @@ Proof.
 Qed.
 
 (* --- soundness of every invocation of a timed pass --- *)
+(* the handler is reached at time t = g_clock Rm (callbacks served before it in the pass may have taken time);
+   at that time a full period has elapsed since its stamp, and [spec_loop] stamps it with that same t *)
 Definition timed_call_ok (R : reg) (e : event) : Prop :=
   In e (g_log R) \/
   exists x k Rm r ret period last,
-    e = EvCall x (r_cb r) (r_ud r) (r_user r) k (g_clock R) ret /\
+    e = EvCall x (r_cb r) (r_ud r) (r_user r) k (g_clock Rm) ret /\
     ((k = KTimed /\ g_conn R = true) \/ k = KGlobal) /\
-    find_rec x (rget k Rm) = Some r /\ r_flt r = FTimed period last /\ period <= elapsed last (g_clock R) /\
+    find_rec x (rget k Rm) = Some r /\ r_flt r = FTimed period last /\ period <= elapsed last (g_clock Rm) /\
     s_gate k Rm r = true /\ g_neg Rm = g_neg R.
 
 Lemma s_match_timed : forall k r sz now, (k = KTimed \/ k = KGlobal) -> s_match k r sz now = true ->
@@ -2040,23 +2071,22 @@ Theorem timed_sound_lemma : forall sc R e,
 Proof.
   intros sc R e. unfold spec_fire_timed.
   set (R1 := if g_conn R then spec_loop sc KTimed no_stanza (hids (rget KTimed (r_enable KTimed R))) (r_enable KTimed R) else R).
-  assert (H1 : g_neg R1 = g_neg R /\ g_clock R1 = g_clock R /\ forall e, In e (g_log R1) -> timed_call_ok R e).
+  assert (H1 : g_neg R1 = g_neg R /\ forall e, In e (g_log R1) -> timed_call_ok R e).
   { unfold R1. destruct (g_conn R) eqn:EC.
-    - destruct (stable_spec_loop sc KTimed no_stanza (hids (rget KTimed (r_enable KTimed R))) (r_enable KTimed R)) as (a&b&_).
-      rewrite a, b, g_neg_r_enable, g_clock_r_enable. repeat split; auto.
-      intros e0. apply (spec_loop_log_inv sc KTimed no_stanza (timed_call_ok R) (g_neg R) (g_clock R) (hids (rget KTimed (r_enable KTimed R)))).
-      + intros x Rm r ret Hx F G M HN HC.
-        destruct (s_match_timed KTimed r no_stanza (g_clock R) (or_introl eq_refl) M) as [p [l [Fl Hd]]].
+    - destruct (stable_spec_loop sc KTimed no_stanza (hids (rget KTimed (r_enable KTimed R))) (r_enable KTimed R)) as (a&_).
+      rewrite a, g_neg_r_enable. split; auto.
+      intros e0. apply (spec_loop_log_inv sc KTimed no_stanza (timed_call_ok R) (g_neg R) (hids (rget KTimed (r_enable KTimed R)))).
+      + intros x Rm r ret Hx F G M HN.
+        destruct (s_match_timed KTimed r no_stanza (g_clock Rm) (or_introl eq_refl) M) as [p [l [Fl Hd]]].
         right. exists x, KTimed, Rm, r, ret, p, l. repeat split; auto.
       + intros y Hy. exact Hy.
       + apply g_neg_r_enable.
-      + apply g_clock_r_enable.
       + intros e1 He1. left. rewrite g_log_r_enable in He1. exact He1.
-    - repeat split; auto. intros e1 He1. left. exact He1. }
-  destruct H1 as [N1 [C1 L1]].
-  apply (spec_loop_log_inv sc KGlobal no_stanza (timed_call_ok R) (g_neg R) (g_clock R) (hids (rget KGlobal R1))); auto.
-  - intros x Rm r ret Hx F G M HN HC.
-    destruct (s_match_timed KGlobal r no_stanza (g_clock R) (or_intror eq_refl) M) as [p [l [Fl Hd]]].
+    - split; auto. intros e1 He1. left. exact He1. }
+  destruct H1 as [N1 L1].
+  apply (spec_loop_log_inv sc KGlobal no_stanza (timed_call_ok R) (g_neg R) (hids (rget KGlobal R1))); auto.
+  - intros x Rm r ret Hx F G M HN.
+    destruct (s_match_timed KGlobal r no_stanza (g_clock Rm) (or_intror eq_refl) M) as [p [l [Fl Hd]]].
     right. exists x, KGlobal, Rm, r, ret, p, l. repeat split; auto.
   - intros y Hy. exact Hy.
 Qed.
@@ -2080,7 +2110,7 @@ Proof.
   set (ev := EvCall y (r_cb r) (r_ud r) (r_user r) k (g_clock R1) ret) in *.
   set (R2 := rset_log R1 (ev :: g_log R1)) in *.
   assert (S1 : stable R R1) by (unfold R1, r_update; apply stable_rset). destruct S1 as (s1&s2&s3&s4).
-  pose proof (stable_actions acts R2) as (t1&t2&t3&t4).
+  pose proof (stable3_actions acts R2) as (t1&t2&t4).
   assert (P2 : present (rget k R2) x = false).
   { replace (rget k R2) with (rget k R1) by (destruct k; reflexivity).
     unfold R1. rewrite rget_update_cases; auto. intro. apply hid_rec_stamp. }
@@ -2183,7 +2213,7 @@ Proof.
   - repeat split.
     + intro k. apply absent_action; auto.
     + pose proof (g_next_action a R). lia.
-    + intros e He _. destruct (stable_action a R) as (l&_). rewrite l in He. exact He.
+    + intros e He _. destruct (stable3_action a R) as (l&_). rewrite l in He. exact He.
   - apply absent_fire_stanza; auto.
   - apply absent_fire_timed; auto.
   - unfold spec_run_once.
@@ -2270,12 +2300,12 @@ Proof. intros R k x r W F. apply find_rec_some_in in F. destruct F as [F <-]. ea
 Lemma find_in_hids : forall l x r, find_rec x l = Some r -> In x (hids l).
 Proof. intros. apply find_rec_some_in in H. destruct H as [H <-]. apply in_hids. auto. Qed.
 
-Lemma pass_complete : forall sc k sz R x r, WF R ->
+Lemma pass_complete : forall sc k sz R x r, instant sc -> WF R ->
   find_rec x (rget k R) = Some r -> s_gate k R r = true -> s_match k r sz (g_clock R) = true ->
   (exists ret, In (EvCall x (r_cb r) (r_ud r) (r_user r) k (g_clock R) ret) (g_log (spec_loop sc k sz (hids (rget k R)) R))) \/
   present (rget k (spec_loop sc k sz (hids (rget k R)) R)) x = false.
 Proof.
-  intros. apply spec_loop_complete; auto.
+  intros sc k sz R x r I H. intros. apply spec_loop_complete; auto.
   - apply (wf_nodup _ H).
   - intros h Hh. apply in_hids_inv in Hh. destruct Hh as [q [Hq <-]]. eapply (wf_lt _ H); eauto.
   - eapply find_in_hids; eauto.
@@ -2284,12 +2314,12 @@ Qed.
 (* a due timed handler of a connected connection fires in this pass (unless a handler served earlier
    in the pass deleted it) *)
 Theorem timed_due_fires_lemma : forall sc R x r,
-  WF R -> g_conn R = true -> find_rec x (rget KTimed R) = Some r ->
+  instant sc -> WF R -> g_conn R = true -> find_rec x (rget KTimed R) = Some r ->
   s_gate KTimed R r = true -> s_match KTimed r no_stanza (g_clock R) = true ->
   (exists ret, In (EvCall x (r_cb r) (r_ud r) (r_user r) KTimed (g_clock R) ret) (g_log (spec_fire_timed sc R))) \/
   present (rget KTimed (spec_fire_timed sc R)) x = false.
 Proof.
-  intros sc R x r W HC F G M. unfold spec_fire_timed. rewrite HC.
+  intros sc R x r I W HC F G M. unfold spec_fire_timed. rewrite HC.
   set (R0 := r_enable KTimed R).
   assert (W0 : WF R0) by (apply wf_r_enable; auto).
   assert (F0 : find_rec x (rget KTimed R0) = Some (rec_enabled r true)) by (apply find_r_enable_same; auto).
@@ -2297,7 +2327,7 @@ Proof.
   { rewrite (s_gate_neg KTimed R R0 _ (g_neg_r_enable KTimed R)). exact G. }
   assert (M0 : s_match KTimed (rec_enabled r true) no_stanza (g_clock R0) = true).
   { unfold R0. rewrite g_clock_r_enable. exact M. }
-  destruct (pass_complete sc KTimed no_stanza R0 x _ W0 F0 G0 M0) as [[ret H]|H].
+  destruct (pass_complete sc KTimed no_stanza R0 x _ I W0 F0 G0 M0) as [[ret H]|H].
   - left. exists ret. apply log_mono_spec_loop. unfold R0 in H at 1. rewrite g_clock_r_enable in H. exact H.
   - right. apply absent_spec_loop; auto.
     pose proof (g_next_spec_loop sc KTimed no_stanza (hids (rget KTimed R0)) R0).
@@ -2306,11 +2336,11 @@ Qed.
 
 (* a due context-wide handler fires in this pass whatever the state of the connection *)
 Theorem global_due_fires_lemma : forall sc R x r,
-  WF R -> find_rec x (rget KGlobal R) = Some r -> s_match KGlobal r no_stanza (g_clock R) = true ->
+  instant sc -> WF R -> find_rec x (rget KGlobal R) = Some r -> s_match KGlobal r no_stanza (g_clock R) = true ->
   (exists ret, In (EvCall x (r_cb r) (r_ud r) (r_user r) KGlobal (g_clock R) ret) (g_log (spec_fire_timed sc R))) \/
   present (rget KGlobal (spec_fire_timed sc R)) x = false.
 Proof.
-  intros sc R x r W F M. unfold spec_fire_timed.
+  intros sc R x r I W F M. unfold spec_fire_timed.
   set (R1 := if g_conn R then spec_loop sc KTimed no_stanza (hids (rget KTimed (r_enable KTimed R))) (r_enable KTimed R) else R).
   pose proof (find_lt _ _ _ _ W F) as Hx.
   assert (H1 : WF R1 /\ g_clock R1 = g_clock R /\ (g_next R <= g_next R1)%nat /\
@@ -2318,7 +2348,7 @@ Proof.
   { unfold R1. destruct (g_conn R).
     - set (R0 := r_enable KTimed R).
       assert (W0 : WF R0) by (apply wf_r_enable; auto).
-      destruct (stable_spec_loop sc KTimed no_stanza (hids (rget KTimed R0)) R0) as (_&c&_).
+      destruct (stable_spec_loop sc KTimed no_stanza (hids (rget KTimed R0)) R0) as (_&_&c). specialize (c I).
       split; [|split; [|split]].
       + apply wf_spec_loop; auto.
       + rewrite c. apply g_clock_r_enable.
@@ -2338,12 +2368,12 @@ Qed.
 (* a registered stanza handler whose filter matches is called for the stanza (unless a handler called
    earlier for the same stanza deleted it) *)
 Theorem stanza_match_fires_lemma : forall sc sz R x r,
-  WF R -> find_rec x (rget KStanza R) = Some r -> s_gate KStanza R r = true ->
+  instant sc -> WF R -> find_rec x (rget KStanza R) = Some r -> s_gate KStanza R r = true ->
   s_match KStanza r sz (g_clock R) = true ->
   (exists ret, In (EvCall x (r_cb r) (r_ud r) (r_user r) KStanza (g_clock R) ret) (g_log (spec_fire_stanza sc sz R))) \/
   present (rget KStanza (spec_fire_stanza sc sz R)) x = false.
 Proof.
-  intros sc sz R x r W F G M. unfold spec_fire_stanza.
+  intros sc sz R x r I W F G M. unfold spec_fire_stanza.
   set (R1 := r_enable KStanza R).
   assert (W1 : WF R1) by (apply wf_r_enable; auto).
   assert (F1 : find_rec x (rget KStanza R1) = Some (rec_enabled r true)) by (apply find_r_enable_same; auto).
@@ -2356,7 +2386,7 @@ Proof.
   { unfold R2. destruct (st_id sz) as [id|].
     - set (R1' := r_enable (KId id) R1).
       assert (W1' : WF R1') by (apply wf_r_enable; auto).
-      destruct (stable_spec_loop sc (KId id) sz (hids (rget (KId id) R1')) R1') as (a&c&_).
+      destruct (stable_spec_loop sc (KId id) sz (hids (rget (KId id) R1')) R1') as (a&_&c). specialize (c I).
       split; [apply wf_spec_loop; auto | split; [|split; [|split]]].
       + rewrite c. unfold R1', R1. rewrite !g_clock_r_enable. reflexivity.
       + rewrite a. unfold R1', R1. rewrite !g_neg_r_enable. reflexivity.
@@ -2374,7 +2404,7 @@ Proof.
     assert (X : (exists ret, In (EvCall x (r_cb (rec_enabled r true)) (r_ud (rec_enabled r true)) (r_user (rec_enabled r true)) KStanza (g_clock R2) ret)
                       (g_log (spec_loop sc KStanza sz (hids (rget KStanza R1)) R2))) \/
                 present (rget KStanza (spec_loop sc KStanza sz (hids (rget KStanza R1)) R2)) x = false).
-    { apply spec_loop_complete; [exact W2 | | | | exact F2 | | ].
+    { apply spec_loop_complete; [exact I | exact W2 | | | | exact F2 | | ].
       - apply (wf_nodup _ W1).
       - intros h Hh. apply in_hids_inv in Hh. destruct Hh as [q [Hq <-]].
         pose proof (wf_lt _ W1 _ _ Hq). assert (g_next R1 = g_next R) by apply g_next_r_enable. lia.
@@ -2437,6 +2467,7 @@ Proof.
   intros a R K. destruct a; cbn [r_action]; try (apply keys_r_add; auto).
   - unfold r_del. apply keys_rset; auto. apply keys_filter. apply K.
   - destruct (g_conn R); auto.
+  - exact K.
 Qed.
 
 Lemma keys_actions : forall acts R, KeysOK R -> KeysOK (r_actions acts R).
@@ -2534,7 +2565,7 @@ Proof.
   set (ev := EvCall y (r_cb r) (r_ud r) (r_user r) k (g_clock R1) ret) in *.
   set (R2 := rset_log R1 (ev :: g_log R1)) in *.
   assert (S1 : stable R R1) by (unfold R1, r_update; apply stable_rset). destruct S1 as (s1&s2&s3&s4).
-  pose proof (stable_actions acts R2) as (t1&t2&t3&t4).
+  pose proof (stable3_actions acts R2) as (t1&t2&t4).
   assert (W2 : WF R2).
   { apply wf_rset_log. apply wf_r_update; auto. intro. apply hid_rec_stamp. }
   pose proof (wf_actions acts R2 W2) as W3.
@@ -2608,7 +2639,7 @@ Theorem blind_lemma : forall sc sz R e, WF R ->
     (In x (hids (rget KStanza R)) \/ In x (id_snapshot sz R)) /\ (x < g_next R)%nat.
 Proof.
   intros sc sz R e W He Hn. destruct (fire_sound_lemma sc sz R e He) as [H|H]; [contradiction|].
-  destruct H as (x&k&Rm&r&ret&E&Hs&_). exists x, (r_cb r), (r_ud r), (r_user r), k, (g_clock R), ret.
+  destruct H as (x&k&Rm&r&ret&E&Hs&_). exists x, (r_cb r), (r_ud r), (r_user r), k, (g_clock Rm), ret.
   split; [exact E|]. split.
   - destruct Hs as [[_ Hs]|[id [Hid [_ Hs]]]]; [left; exact Hs|]. right. unfold id_snapshot. rewrite Hid. exact Hs.
   - assert (H : In x (hids (rget k R))).
@@ -2616,21 +2647,41 @@ Proof.
     apply in_hids_inv in H. destruct H as [q [Hq <-]]. eapply (wf_lt _ W); eauto.
 Qed.
 
+(* [t] is the time at which the handler was reached (= g_clock Rm), which is also the stamp it gets *)
 Theorem timed_never_early_lemma : forall sc R e,
   In e (g_log (spec_fire_timed sc R)) -> ~ In e (g_log R) ->
-  exists x k Rm r ret period last,
-    e = EvCall x (r_cb r) (r_ud r) (r_user r) k (g_clock R) ret /\
+  exists x k Rm r ret period last t,
+    e = EvCall x (r_cb r) (r_ud r) (r_user r) k t ret /\ t = g_clock Rm /\
     ((k = KTimed /\ g_conn R = true) \/ k = KGlobal) /\
     find_rec x (rget k Rm) = Some r /\ r_flt r = FTimed period last /\
-    period <= elapsed last (g_clock R) /\
-    (0 <= last <= g_clock R -> g_clock R < two64 -> timed_due period last (g_clock R)) /\
+    period <= elapsed last t /\
+    (0 <= last <= t -> t < two64 -> timed_due period last t) /\
     (k = KTimed -> r_user r = true -> g_neg R = true).
 Proof.
   intros sc R e He Hn. destruct (timed_sound_lemma sc R e He) as [H|H]; [contradiction|].
   destruct H as (x&k&Rm&r&ret&p&l&E&Hk&F&Fl&Hd&G&N).
-  exists x, k, Rm, r, ret, p, l. repeat split; auto.
-  - intros H1 H2. unfold timed_due. rewrite (elapsed_nowrap l (g_clock R) H1 H2) in Hd. lia.
+  exists x, k, Rm, r, ret, p, l, (g_clock Rm). repeat split; auto.
+  - intros H1 H2. unfold timed_due. rewrite (elapsed_nowrap l (g_clock Rm) H1 H2) in Hd. lia.
   - intros -> U. unfold s_gate in G. rewrite U, N in G. simpl in G. destruct (g_neg R); auto.
+Qed.
+
+(* the stamp a timed handler carries after it ran is the time at which it was reached: one step of the pass *)
+Theorem timed_stamp_on_fire_lemma : forall k x R r period last,
+  (k = KTimed \/ k = KGlobal) -> WF R ->
+  find_rec x (rget k R) = Some r -> r_flt r = FTimed period last ->
+  find_rec x (rget k (r_update k x (rec_stamp k (g_clock R)) R)) = Some (rec_flt r (FTimed period (g_clock R))).
+Proof.
+  intros k x R r period last Hk W F Fl.
+  pose proof (find_rec_some_in _ _ _ F) as [Hin Hx]. subst x.
+  apply in_split in Hin. destruct Hin as [pre [suf E]].
+  pose proof (wf_nodup _ W k) as ND. rewrite E in ND.
+  unfold r_update. rewrite rget_rset_same, E, (map_update_mid _ _ _ _ ND).
+  assert (X : rec_stamp k (g_clock R) r = rec_flt r (FTimed period (g_clock R))).
+  { unfold rec_stamp. rewrite Fl. destruct Hk as [-> | ->]; reflexivity. }
+  rewrite X.
+  assert (ND' : NoDup (hids (pre ++ rec_flt r (FTimed period (g_clock R)) :: suf))).
+  { rewrite (hids_mid pre r (rec_flt r (FTimed period (g_clock R))) suf eq_refl). exact ND. }
+  exact (find_rec_mid _ _ _ ND').
 Qed.
 
 Theorem timed_connected_lemma : forall sc R e,
